@@ -1,13 +1,26 @@
 #!/bin/bash
-# confirm a seeded change delivered in /tmp/seed/<id>/out: tests pass with the change, demo fails with it, demo passes on the clean baseline build
+# Confirm a seeded change delivered in /verif/seeded/_incoming/<id>/ on a FRESH worktree of /repo's HEAD:
+#   the patch applies, the tree builds, the pinned suite passes (134), the demo fails with the change and passes on a clean build.
+# usage: confirm_seed.sh <id>
 id=$1
-d=/tmp/seed/$id
-log=/verif/seeded/_incoming/$id/confirm.log
+src=/verif/seeded/_incoming/$id
+d=/tmp/seedc/$id
+log=$src/confirm.log
+mkdir -p /tmp/seedc
 {
+echo "== fresh worktree of $(git -C /repo rev-parse --short HEAD)"
+git -C /repo worktree remove --force $d 2>/dev/null
+git -C /repo worktree add --detach $d HEAD >/dev/null 2>&1
+echo "== apply patch"; git -C $d apply $src/patch.diff && echo applied
+cmake -G Ninja -S $d -B $d/_build -DCMAKE_BUILD_TYPE=RelWithDebInfo -DWB_ENABLE_PYTHON=OFF -DWB_MAKE_FORTRAN_WRAPPER=OFF >/dev/null 2>&1
+cmake --build $d/_build -j 8 >/dev/null 2>&1 && echo "build ok" || echo "BUILD FAILED"
 echo "== ctest with change"
-ctest --test-dir $d/_build -j8 --timeout 900 2>&1 | tail -4
+ctest --test-dir $d/_build -j8 --timeout 900 2>&1 | grep -E "tests passed|Failed|\*\*\*" | head -8
 echo "== demo with change (expect non-zero)"
-bash $d/out/run_demo.sh $d > /tmp/seed/demo_$id.with 2>&1; echo "exit=$?"; tail -3 /tmp/seed/demo_$id.with
-echo "== demo on clean baseline /repo (expect 0)"
-bash $d/out/run_demo.sh /repo > /tmp/seed/demo_$id.without 2>&1; echo "exit=$?"; tail -3 /tmp/seed/demo_$id.without
+mkdir -p $d/out && cp -r $src/* $d/out/
+bash $d/out/run_demo.sh $d > /tmp/seedc/demo_$id.with 2>&1; echo "exit=$?"; tail -3 /tmp/seedc/demo_$id.with
+echo "== demo without change (expect 0)"
+git -C $d apply -R $src/patch.diff && cmake --build $d/_build -j 8 >/dev/null 2>&1
+bash $d/out/run_demo.sh $d > /tmp/seedc/demo_$id.without 2>&1; echo "exit=$?"; tail -3 /tmp/seedc/demo_$id.without
+git -C /repo worktree remove --force $d
 } > $log 2>&1
